@@ -2,7 +2,7 @@
 """Generate the Go 1.26.8 runtime overlay used by the simulation binary (DESIGN.md Appendix A).
 
 usage: gen_overlay.py <outdir>
-Copies five runtime files, applies anchored replacements (each anchor must occur exactly once)
+Copies five runtime files and three files of internal/runtime/maps, applies anchored replacements (each anchor must occur exactly once)
 and writes overlay.json mapping the GOROOT paths to the patched copies.
 """
 import json, os, sys
@@ -13,15 +13,20 @@ O = os.path.abspath(sys.argv[1])
 os.makedirs(O, exist_ok=True)
 
 
-def patch(name, reps, append=''):
-    s = open(f'{R}/runtime/{name}').read()
+FILES = {}
+
+
+def patch(name, reps, append='', pkg='runtime', count=1):
+    s = open(f'{R}/{pkg}/{name}').read()
     for a, b in reps:
         n = s.count(a)
-        if n != 1:
+        if n != count:
             sys.stderr.write(f'gen_overlay: anchor occurs {n} times in runtime/{name}: {a!r}\n')
             sys.exit(2)
         s = s.replace(a, b)
-    open(f'{O}/{name}', 'w').write(s + append)
+    out = name if pkg == 'runtime' else pkg.replace('/', '_') + '_' + name
+    open(f'{O}/{out}', 'w').write(s + append)
+    FILES[f'{R}/{pkg}/{name}'] = f'{O}/{out}'
 
 
 patch('select.go',
@@ -37,6 +42,33 @@ var SimRand uint64
 
 //go:linkname SimNoPreempt
 var SimNoPreempt uint32
+
+// SimMapSeed, when non-zero, is the hash seed of every map created during the run; SimIter is the
+// stream map iterations draw their starting offsets from. Keeping them apart from the general
+// rand() stream makes map behaviour independent of how many once-only initialisations (which
+// create maps and draw seeds) already happened in the process.
+//
+//go:linkname SimMapSeed
+var SimMapSeed uint64
+
+//go:linkname SimIter
+var SimIter uint64
+
+//go:linkname maps_randSeed internal/runtime/maps.randSeed
+func maps_randSeed() uint64 {
+	if SimMapSeed != 0 {
+		return SimMapSeed
+	}
+	return rand()
+}
+
+//go:linkname maps_randIter internal/runtime/maps.randIter
+func maps_randIter() uint64 {
+	if SimIter != 0 {
+		return simStep(&SimIter)
+	}
+	return rand()
+}
 
 //go:nosplit
 func simStep(p *uint64) uint64 {
@@ -73,6 +105,10 @@ func SimGoid() uint64 { return getg().goid }
 patch('proc.go',
       [("		} else if pd.schedwhen+forcePreemptNS <= now {\n			preemptone(pp)\n",
         "		} else if pd.schedwhen+forcePreemptNS <= now {\n			if SimNoPreempt == 0 {\n				preemptone(pp)\n			}\n")])
-names = ['select.go', 'rand.go', 'alg.go', 'runtime2.go', 'proc.go']
-json.dump({"Replace": {f"{R}/runtime/{n}": f"{O}/{n}" for n in names}}, open(f'{O}/overlay.json', 'w'), indent=1)
+MAPS = 'internal/runtime/maps'
+patch('map.go', [("m.seed = uintptr(rand())", "m.seed = uintptr(randSeed())")], pkg=MAPS, count=4)
+patch('table.go', [("it.entryOffset = rand()", "it.entryOffset = randIter()"), ("it.dirOffset = rand()", "it.dirOffset = randIter()")], pkg=MAPS)
+patch('runtime.go', [("//go:linkname rand\nfunc rand() uint64\n",
+                      "//go:linkname rand\nfunc rand() uint64\n\n//go:linkname randSeed\nfunc randSeed() uint64\n\n//go:linkname randIter\nfunc randIter() uint64\n")], pkg=MAPS)
+json.dump({"Replace": FILES}, open(f'{O}/overlay.json', 'w'), indent=1)
 print('overlay written to', O)
